@@ -53,6 +53,7 @@ ALL_PROP = ["PassImplementsRel", "PoolTimeoutExact", "RetryOnlyUnsent"]
 # property -> what TLC checks on the model, and which executions are recorded
 PLAN = {
     "C04": {
+        "scen_trio": ["h1-max1-AAB", "h1-max2-AAAA"],
         "mc_thorough": ["CfgsMbase"],
         "inv": ["TypeOK", "ConnLimit"],
         "prop": ["PassImplementsRel"],
@@ -63,6 +64,7 @@ PLAN = {
         "strategies": ["base", "dfs", "fault", "cancel-scope", "late", "late+fault"],
     },
     "C05": {
+        "scen_trio": ["h1-max1-AA", "h1-tls-max1-AAB", "h2-max1-AA"],
         "mc_thorough": ["CfgsMbase"],
         "inv": ["TypeOK", "Forgotten", "NoZombie"],
         "prop": [],
@@ -73,6 +75,7 @@ PLAN = {
         "strategies": ["base", "fault", "cancel-scope", "cancel-native", "time"],
     },
     "C06": {
+        "scen_trio": ["h1-tls-max1-AAB", "h2-max1-AA"],
         "mc_thorough": ["CfgsMbase"],
         "inv": ["TypeOK", "StreamOwned"],
         "prop": [],
@@ -83,6 +86,7 @@ PLAN = {
         "strategies": ["base", "fault", "cancel-scope", "cancel-native", "poolclose"],
     },
     "C07": {
+        "scen_trio": ["h1-max1-AAB", "h1-guess-max1"],
         "mc_thorough": ["CfgsMbase", "CfgsMto"],
         "inv": ["TypeOK", "NoServiceableWaiter"],
         "prop": ["PassImplementsRel"],
@@ -94,6 +98,7 @@ PLAN = {
         "strategies": ["base", "dfs", "fault", "cancel-scope"],
     },
     "C01": {
+        "scen_trio": ["h1-max1-mixed-ends"],
         "mc_thorough": ["CfgsMbase"],
         "inv": ["TypeOK", "OwnResponse", "ReuseGate"],
         "prop": [],
@@ -104,6 +109,7 @@ PLAN = {
         "strategies": ["base", "dfs", "fault", "cancel-scope", "sequential"],
     },
     "C14": {
+        "scen_trio": ["h1-guess-max1"],
         "mc_thorough": ["CfgsMbase"],
         "inv": ["TypeOK", "AtMostOnce"],
         "prop": ["RetryOnlyUnsent"],
@@ -313,8 +319,39 @@ class PoolRunner:
                     s = self.rng.randrange(1 << 30)
                     run = explore.random_walk(scen.make, s, p_fault=0.08, p_cancel=0.03 if styles else 0.0)
                     self.add(scen, ("random", s), run)
-        if "keepalive-scripts" in strategies:
+        self.explore_trio(quick)
+        if "keepalive-scripts" in self.plan["strategies"]:
             self.keepalive_scripts(quick)
+
+    def explore_trio(self, quick):
+        """The same scenarios with the async pool running under TRIO (trio.Lock / Event / Semaphore,
+        trio.fail_after, trio cancel scopes): base, faults, scope cancellation, completion orders."""
+        names = self.plan.get("scen_trio", [])
+        if not names:
+            return
+        from .driver import Call
+        from .trio_run import TrioRun
+
+        strategies = self.plan["strategies"]
+        for name in names:
+            scen = SCENARIOS[name]
+
+            def make(scen=scen):
+                return TrioRun(scen.pool_kwargs, [Call(**c) for c in scen.calls], world=scen.world())
+
+            run = make()
+            run.run()
+            self.add(scen, ("trio", "base"), run)
+            if "dfs" in strategies:
+                for label, run in explore.dfs_orders(make, depth=8 if quick else 12, max_runs=30 if quick else 300):
+                    self.add(scen, ("trio",) + tuple(label), run)
+            if "fault" in strategies:
+                for label, run in explore.fault_variants(make):
+                    self.add(scen, ("trio",) + tuple(label), run)
+            if "cancel-scope" in strategies and "cancel-scope" not in scen.skip:
+                for label, run in explore.cancel_variants(make, styles=("scope",)):
+                    self.add(scen, ("trio",) + tuple(label), run)
+        self.chk.coverage["trio_scenarios"] = list(names)
 
     def keepalive_scripts(self, quick):
         import itertools
